@@ -10,19 +10,19 @@ import (
 // ---- generators for the key-engine properties ----
 
 func genC01(t *rapid.T) KeyCase {
-	d := genWorld(t, WorldOpts{Modes: allModes, MaxMappings: 3, Actions: allKeyActions, ActionProb: 70, KeyAxes: 2, Subs: 2, AxesVary: true})
+	d := genWorld(t, WorldOpts{Modes: allModes, MaxMappings: 3, Actions: allKeyActions, ActionProb: 70, KeyAxes: 2, Subs: 2, AxesVary: true, Twins: true})
 	steps := genHistory(t, d, HistOpts{MaxLen: 60, StateBias: 40, BurstMax: 4, Axes: true, Repeats: true, MidiIn: true, UnmappedKey: true})
 	return KeyCase{D: d, Steps: steps, NoLogs: rapid.IntRange(0, 9).Draw(t, "nologs") > 0}
 }
 
 func genC02(t *rapid.T) KeyCase {
-	d := genWorld(t, WorldOpts{Modes: allModes, MaxMappings: 3, Actions: allKeyActions[:10], ActionProb: 80, Subs: 2})
+	d := genWorld(t, WorldOpts{Modes: allModes, MaxMappings: 3, Actions: allKeyActions[:10], ActionProb: 80, Subs: 2, Twins: true})
 	steps := genHistory(t, d, HistOpts{MaxLen: 50, StateBias: 70, BurstMax: 3, Repeats: true, UnmappedKey: true})
 	return KeyCase{D: d, Steps: steps, NoLogs: true}
 }
 
 func genC03(t *rapid.T) KeyCase {
-	d := genWorld(t, WorldOpts{Modes: allModes, MaxMappings: 2, Actions: stateActions, ActionProb: 60, Subs: 1})
+	d := genWorld(t, WorldOpts{Modes: allModes, MaxMappings: 2, Actions: stateActions, ActionProb: 60, Subs: 2, Twins: true})
 	steps := genHistory(t, d, HistOpts{MaxLen: 50, StateBias: 35, BurstMax: 2, Repeats: true})
 	return KeyCase{D: d, Steps: steps, NoLogs: true}
 }
